@@ -16,7 +16,7 @@ ASSUMPTIONS = ["vf/refs/ed25519.py implements RFC 8032 (vectors checked at start
 
 
 def plan(tier, seed):
-    n = 240 if tier == "quick" else 6000
+    n = 1200 if tier == "quick" else 12000
     shards = 6 if tier == "quick" else 16
     specs = [{"kind": "seeds", "count": n // shards} for _ in range(shards)]
     specs.append({"kind": "vectors"})
@@ -165,6 +165,7 @@ MALFORMED_BYTES = [
 MALFORMED_HEX = [
     "00" * 31, "00" * 33, "0" * 63, "0" * 65, "", "AB" * 32, "ab" * 31 + "aB", " " + "ab" * 31 + "a", "ab" * 32 + "\n",
     "0x" + "ab" * 31, "zz" * 32, {"$py": "bytes", "hex": "ab" * 32}, {"$py": "bytes", "hex": "61" * 64}, None, 5, ["ab" * 32],
+    "ab" * 31 + "a\n", "ab" * 31 + "a ", "ab" * 31 + "a\r", "\n" + "ab" * 31 + "a", "ab" * 31 + "a\x00", "ab" * 31 + "a\u2028",
     "٠" * 64, "ａ" * 64, "ab" * 16 + " " + "ab" * 15 + "a", {"$py": "object"}, {"$py": "tuple", "items": ["ab" * 32]},
 ]
 
@@ -177,6 +178,7 @@ def run_malformed(spec, rec, lib):
         ("common.PublicKey.from_bytes", MALFORMED_BYTES),
         ("common.PrivateKey.from_hex", MALFORMED_HEX),
         ("common.PublicKey.from_hex", MALFORMED_HEX),
+        ("common.checkformat_hex_key", MALFORMED_HEX),
     ]
     n = 0
     while n < spec["count"]:
@@ -203,6 +205,13 @@ def run_malformed(spec, rec, lib):
             if o.accepted or o.family not in ("TypeError", "ValueError"):
                 viol(rec, "malformed-length/" + dotted + "/" + ("accepted" if o.accepted else o.cls),
                      "%d-byte key material: %s" % (ln, o.brief()), {"kind": "malformed", "fn": dotted, "arg": {"$py": "bytes", "hex": arg.hex()}})
+    # the predicate used for key strings everywhere must say False for every malformed encoding
+    for a in MALFORMED_HEX:
+        o = boundary.call(lib, C.is_hex_key, caselang.dec(a, lib))
+        rec.case("malformed|is_hex_key|%s" % boundary.fingerprint(caselang.dec(a, lib)))
+        if not o.accepted or o.value is not False:
+            viol(rec, "malformed-accepted/common.is_hex_key", "is_hex_key(%r) -> %s" % (a, o.value if o.accepted else o.brief()),
+                 {"kind": "malformed", "fn": "common.is_hex_key", "arg": a})
     # is_equivalent_to with non-keys
     for a in (None, 5, "ab" * 32, b"\x00" * 32):
         k = C.PrivateKey.from_bytes(bytes(32))
@@ -266,6 +275,10 @@ def replay(case, rec, lib):
         arg = caselang.dec(case["arg"], lib)
         o = boundary.call(lib, lib.fn(case["fn"]), arg)
         rec.case("malformed")
+        if case["fn"].endswith("is_hex_key"):
+            if not o.accepted or o.value is not False:
+                viol(rec, "malformed-accepted/common.is_hex_key", "replay", case)
+            return
         if o.accepted:
             viol(rec, "malformed-accepted/" + case["fn"], "accepted", case)
         elif o.family not in ("TypeError", "ValueError"):
